@@ -71,6 +71,25 @@ Theorem c18_degraded_tagged_zero :
 Proof. exact degraded_tagged_zero_proof. Qed.
 Print Assumptions c18_degraded_tagged_zero.
 
+(* consecutive heal() calls on ONE loop / chaperone / generator (the generator goes on
+   counting its own invocations): every call stays within its own budget, its first
+   generator invocation gets no error context, and its result is tagged as above *)
+Theorem c18_heal_history_within_budget :
+  forall (gen : nat -> option ctx -> gen_out) (validate : Z -> vres) (decay : Q) (max_retries : Z)
+         (n k0 : nat) (r : heal_result),
+    In r (heal_runs gen validate decay max_retries n k0) ->
+    length (h_calls r) <= Z.to_nat (max_retries + 1) /\
+    (forall c, nth_error (h_calls r) 0 = Some c -> snd c = None) /\
+    match h_outcome r with
+    | ValidFirstTry | Healed => h_tagged r = false /\ h_structure r <> None
+    | Degraded =>
+        h_tagged r = true /\ h_conf r = 0%Q /\ h_structure r = None /\
+        length (h_calls r) = Z.to_nat (max_retries + 1)
+    | GenRaised => True
+    end.
+Proof. exact heal_history_proof. Qed.
+Print Assumptions c18_heal_history_within_budget.
+
 (* ---- regenerative swarm ------------------------------------------------ *)
 
 (* at most max_regenerations + 1 worker_factory invocations, numbered 0,1,2,... *)
@@ -110,6 +129,21 @@ Theorem c18_swarm_success_has_marker :
     (s_success r = false -> s_output r = None).
 Proof. exact swarm_success_has_marker_proof. Qed.
 Print Assumptions c18_swarm_success_has_marker.
+
+(* consecutive supervise() calls on ONE swarm (the worker counter is cumulative): every
+   call spawns at most max_regenerations + 1 workers, runs at most max_steps_per_worker
+   steps on each, succeeds only with a marker-carrying output, releases no output otherwise *)
+Theorem c18_swarm_history_within_budget :
+  forall (factory_ok : nat -> bool) (beh : nat -> nat -> wstep) (thr : Q)
+         (max_regenerations max_steps : Z) (n w0 : nat) (r : swarm_result),
+    In r (swarm_runs factory_ok beh thr max_regenerations max_steps n w0) ->
+    length (s_workers r) <= Z.to_nat (max_regenerations + 1) /\
+    (forall w, In w (s_workers r) -> w_steps w <= Z.to_nat max_steps) /\
+    (s_success r = true ->
+       exists w j o, factory_ok w = true /\ beh w j = WOut o true /\ s_output r = Some o) /\
+    (s_success r = false -> s_output r = None).
+Proof. exact swarm_history_proof. Qed.
+Print Assumptions c18_swarm_history_within_budget.
 
 (* ---- LLM tool loop ----------------------------------------------------- *)
 
